@@ -469,9 +469,29 @@ def _mask_paths(stmts, state, conds, L, out):
                             src, mode="eval").body), True)
                 elif isinstance(v, (ast.Attribute, ast.Name)):
                     state[tt] = _Mask(L.r(v), False)
-                elif isinstance(v, ast.BinOp) and isinstance(
-                        v.op, ast.BitAnd):
-                    state[tt] = _Mask("<and>", True)
+                elif (isinstance(v, ast.BinOp) and isinstance(
+                        v.op, ast.BitAnd)) or (
+                        isinstance(v, ast.Call) and call_name(v) in (
+                            "np.logical_and", "numpy.logical_and")
+                        and len(v.args) == 2 and not v.keywords):
+                    parts_ = []
+
+                    def conj_(e_):
+                        if isinstance(e_, ast.BinOp) and isinstance(
+                                e_.op, ast.BitAnd):
+                            conj_(e_.left)
+                            conj_(e_.right)
+                        elif isinstance(e_, ast.Call) and call_name(e_) in (
+                                "np.logical_and", "numpy.logical_and"):
+                            for a_ in e_.args:
+                                conj_(a_)
+                        else:
+                            parts_.append(e_)
+                    conj_(v)
+                    state[tt] = _Mask(
+                        "self.segment" if any(L.r(p_) == "self.segment"
+                                              for p_ in parts_)
+                        else "<and>", True)
                     state[tt].clears = [("and", v, st)]
                 continue
             if isinstance(t, ast.Subscript):
@@ -619,13 +639,43 @@ def clause_absolute_mask(ctx):
                     else:
                         parts.append(e)
                 flat(cond)
-                for p_ in parts:
-                    if isinstance(p_, ast.Compare) and len(p_.ops) == 1:
-                        comps.append((p_, False))
-                    elif norm(p_) in ("self.segment",):
-                        continue
-                    else:
+
+                def term(p_, neg, depth=0):
+                    if depth > 6:
                         raise Undecided(f"unrecognised mask term {norm(p_)}")
+                    if isinstance(p_, ast.Name) and hasattr(p_, "_parent"):
+                        v_ = L.res.reaching_value(p_)
+                        if v_ is not None:
+                            return term(v_, neg, depth + 1)
+                    if isinstance(p_, ast.UnaryOp) and isinstance(
+                            p_.op, ast.Invert):
+                        return term(p_.operand, not neg, depth + 1)
+                    if isinstance(p_, ast.Call) and call_name(p_) in (
+                            "np.logical_not", "np.invert") and len(
+                            p_.args) == 1:
+                        return term(p_.args[0], not neg, depth + 1)
+                    is_or = (isinstance(p_, ast.BinOp) and isinstance(
+                        p_.op, ast.BitOr)) or (isinstance(
+                            p_, ast.Call) and call_name(p_) in (
+                            "np.logical_or", "numpy.logical_or"))
+                    is_and = (isinstance(p_, ast.BinOp) and isinstance(
+                        p_.op, ast.BitAnd)) or (isinstance(
+                            p_, ast.Call) and call_name(p_) in (
+                            "np.logical_and", "numpy.logical_and"))
+                    if (is_or and neg) or (is_and and not neg):
+                        # ~(a | b) = ~a & ~b ;  a & b
+                        for q_ in ([p_.left, p_.right] if isinstance(
+                                p_, ast.BinOp) else p_.args):
+                            term(q_, neg, depth + 1)
+                        return
+                    if isinstance(p_, ast.Compare) and len(p_.ops) == 1:
+                        comps.append((p_, neg))
+                        return
+                    if not neg and L.r(p_) in ("self.segment",):
+                        return
+                    raise Undecided(f"unrecognised mask term {norm(p_)}")
+                for p_ in parts:
+                    term(p_, False)
             else:
                 ctx.fail(st, f"mask store {norm(st)[:50]}",
                          "points are switched on in the range mask")
@@ -1282,13 +1332,16 @@ def clause_upper_bound_agreement(ctx, who="hash"):
     if who == "hash":
         fn = mod.func("IndentationFitter._hash")
         exprs = []
+        from .symres import Resolver as _Res
+        res_ = _Res(fn, keep=("key",))
         for n in ast.walk(fn):
             if isinstance(n, ast.Call) and isinstance(n.func, ast.Attribute) \
                     and n.func.attr == "append" and n.args:
                 conds = conditions_at(n)
                 if any(a.pol and a.text == "key == 'range_x'"
                        for a in conds) and any(
-                           a.pol and "optimal_fit_edelta" in a.text
+                           a.pol and "optimal_fit_edelta" in (
+                               a.text + res_.text(a.node))
                            for a in conds):
                     exprs.append(n.args[0])
         if not exprs:
